@@ -632,12 +632,18 @@ func lpStr(s string) []byte {
 // listpack (master id 1000-0, master entry with the single field "f", two
 // SAMEFIELDS entries 1000-1 {f v1} and 1005-0 {f v2}), length 2, last id
 // 1005-0, no consumer groups — and the commands it expands to for a 7.x target.
-func SmallStream(key string) KV { return SmallStreamF(key, "f") }
+func SmallStream(key string) KV { return SmallStreamG(key, "f", "") }
 
 // SmallStreamF: SmallStream with the master entry's field name chosen (a name
 // of >= 2 bytes puts printable bytes behind the num-fields element, which is
 // what a damaged count needs to be read as a huge integer).
-func SmallStreamF(key, field string) KV {
+func SmallStreamF(key, field string) KV { return SmallStreamG(key, field, "") }
+
+// SmallStreamG: SmallStreamF plus (group != "") one consumer group at the last
+// id with one pending entry (1000-1, delivered once at time 5) owned by the
+// consumer "c1": the expansion ends with XGROUP CREATE (key is the SECOND
+// argument) and XCLAIM.
+func SmallStreamG(key, field, group string) KV {
 	var lp []byte
 	for _, e := range [][]byte{lpInt(2), lpInt(0), lpInt(1), lpStr(field), lpInt(0),
 		lpInt(2), lpInt(0), lpInt(1), lpStr("v1"), lpInt(4),
@@ -657,12 +663,35 @@ func SmallStreamF(key, field string) KV {
 	raw.Write(EncLen(2))    // length
 	raw.Write(EncLen(1005)) // last id ms
 	raw.Write(EncLen(0))    // last id seq
-	raw.Write(EncLen(0))    // consumer groups
-	return KV{Key: []byte(key), Type: 15, Raw: raw.Bytes(), Ops: [][]string{
+	ops := [][]string{
 		{"xadd", key, "1000-1", field, "v1"},
 		{"xadd", key, "1005-0", field, "v2"},
 		{"xsetid", key, "1005-0", "ENTRIESADDED", "2", "MAXDELETEDID", "0-0"},
-	}}
+	}
+	if group == "" {
+		raw.Write(EncLen(0)) // consumer groups
+	} else {
+		id := make([]byte, 16)
+		binary.BigEndian.PutUint64(id[0:], 1000)
+		binary.BigEndian.PutUint64(id[8:], 1)
+		raw.Write(EncLen(1))
+		raw.Write(EncStr([]byte(group)))
+		raw.Write(EncLen(1005))
+		raw.Write(EncLen(0))
+		raw.Write(EncLen(1)) // global PEL
+		raw.Write(id)
+		raw.Write([]byte{5, 0, 0, 0, 0, 0, 0, 0}) // delivery time
+		raw.Write(EncLen(1))                      // delivery count
+		raw.Write(EncLen(1))                      // consumers
+		raw.Write(EncStr([]byte("c1")))
+		raw.Write(make([]byte, 8)) // seen time
+		raw.Write(EncLen(1))       // consumer PEL
+		raw.Write(id)
+		ops = append(ops,
+			[]string{"xgroup", "CREATE", key, group, "1005-0", "ENTRIESREAD", "2"},
+			[]string{"xclaim", key, group, "c1", "0", "1000-1", "TIME", "5", "RETRYCOUNT", "1", "JUSTID", "FORCE"})
+	}
+	return KV{Key: []byte(key), Type: 15, Raw: raw.Bytes(), Ops: ops}
 }
 
 // DumpPayload: what DUMP/RESTORE carry for the value.
